@@ -1,7 +1,7 @@
 (* C01 -- parsing and rendering never panic, abort or hang.  Statements only; proofs in
    proofs/{BlockProofs,InlineProofs,RegexProofs,CoreProofs,RenderProofs}.v; see DESIGN.md section 6 C01. *)
 From Coq Require Import String.
-From MdIt Require Import Prims Tables Tree Render Block Inline Core Dump Dispatch BlockProofs InlineProofs CoreProofs.
+From MdIt Require Import Prims Tables Ruler Tree Render Block Inline Core Dump Dispatch BlockProofs InlineProofs CoreProofs PairsProofs RenderTotalProofs.
 Local Open Scope string_scope.
 Local Open Scope list_scope.
 Local Open Scope N_scope.
@@ -24,10 +24,12 @@ Proof. vm_compute. reflexivity. Qed.
    its unbounded `while` loops would not make progress, and inl OutOfFuel where the recursion
    would go deeper than 2 * max_nesting + 10.
 
-   PROVED (this file): the Hang and OutOfFuel outcomes are impossible -- for EVERY parser object
+   PROVED (this file): (a) the Hang and OutOfFuel outcomes are impossible -- for EVERY parser object
    (any rule chain in any order, shipped or not, any cache state, any nesting limit) and every byte
-   string.  NOT PROVED: absence of Panic (index, slice, unwrap, overflow, assertion); it is decided on every
-   run by the model/implementation correspondence and the no-panic oracle on generated documents. *)
+   string; (b) rendering a tree the parser returned never panics (theorems 5-6), for every parser whose
+   core chain runs inline parsing after the last block pass and fragments-join after the last inline pass.
+   NOT PROVED: absence of Panic (index, slice, unwrap, overflow, assertion) inside `parse`; it is decided on
+   every run by the model/implementation correspondence and the no-panic oracle on generated documents. *)
 
 Definition terminates {A} (r : res A) : Prop := r <> inl Hang /\ r <> inl OutOfFuel.
 
@@ -59,6 +61,34 @@ Proof. exact run_rule_spec. Qed.
 Theorem C01_render_terminates : forall xhtml n, terminates (render xhtml n).
 Proof. intros xhtml n. apply benign_terminates. exact (render_benign xhtml n). Qed.
 
+(* 5. rendering what the parser returned never panics.  The renderer has no arm for three node kinds -- the inline-root
+      placeholder, the emphasis-delimiter placeholder and the empty node -- and indexes a table by the heading level.
+      None of these can be met: no rule builds an empty node or an out-of-range heading level (any configuration), the
+      inline core rule replaces every placeholder by nodes that contain none, and fragments-join turns every delimiter
+      into text.  `chain_renders cc` is a fold over the compiled core chain: block parsing may leave both placeholders,
+      inline parsing removes the first and may leave the second, fragments-join removes the second. *)
+Theorem C01_render_never_panics : forall fuel m src d cc xhtml,
+  md_pairs_emph m = true -> snd (r_iter (md_core m)) = inr cc -> chain_renders cc = true ->
+  snd (parse fuel m src) = inr d -> exists html, render xhtml (d_root d) = inr html.
+Proof. exact parse_then_render. Qed.
+
+(* 6. the first hypothesis holds for every parser assembled from the shipped plugins, in any order ... *)
+Theorem C01_shipped_pairs : forall cfg nest, md_pairs_emph (build_md cfg nest) = true.
+Proof. exact build_md_pairs_emph. Qed.
+
+(* ... and the second for the shipped sets (evaluated: the compiled chains of CommonMark, + strikethrough + HTML,
+   + source positions + a custom core rule, and of a parser with no emphasis rule added but fragments-join present) *)
+Definition chain_ok (cfg : string) : bool :=
+  match snd (r_iter (md_core (build_md (bs cfg) 100))) with inr cc => chain_renders cc | inl _ => false end.
+Example C01_shipped_chains : forallb chain_ok ["C"; "CsW"; "CsWS5"; "SCs"; "5sWCS"; "nebmp"; "slp"; "C8134"] = true.
+Proof. vm_compute. reflexivity. Qed.
+
+(* the hypothesis is needed: without fragments-join (removed by the user) a left-over delimiter has no renderer *)
+Example C01_render_needs_join :
+  let m := remove_plugin_rule (build_md (bs "C") 100) 74 in
+  match snd (parse (default_fuel m) m (bs "*a")) with inr d => render false (d_root d) | inl e => inl e end = inl (Panic Unimplemented).
+Proof. vm_compute. reflexivity. Qed.
+
 (* non-vacuity: a document exercising both loops parses to a value *)
 Example C01_nonvacuous :
   let m := build_md (bs "CsW") 100 in
@@ -71,3 +101,5 @@ Print Assumptions C01_block_never_hangs.
 Print Assumptions C01_inline_never_hangs.
 Print Assumptions C01_rule_progress.
 Print Assumptions C01_render_terminates.
+Print Assumptions C01_render_never_panics.
+Print Assumptions C01_shipped_pairs.
